@@ -111,7 +111,7 @@ def scenario(pk, params, inp):
     t = np.empty(nt, dtype=object if pk.symbolic else float)
     for i in range(nt):
         t[i] = inp.real(f"t{i}")
-    m.regret_min_iteration(t, bottom)
+    m.regret_min_iteration(t, [iter(b) for b in bottom] if len(params["prefix"]) % 2 else bottom)
     after_reg = [[m.cumulative_regret[r][a] for a in range(m.number_of_coalitions)] for r in range(nrm)]
     cur = [list(m.regret_matching_strategy(int(m.meta_rank_to_id[r]))) for r in range(nrm)]
     nodes = []
@@ -120,7 +120,9 @@ def scenario(pk, params, inp):
         used_pids = [i for i in range(m.number_of_coalitions) if mid >> i & 1]
         path = [pk.coalitions.Coalition(viable[i]) for i in used_pids]
         avg = list(m.get_average_strategy(path))
-        nodes.append({"rank": r, "meta": mid, "used": used_pids, "avg": avg, "cum_strategy": [m.cumulative_strategy[r][a] for a in range(m.number_of_coalitions)]})
+        avg_it = list(m.get_average_strategy(iter(path)))                 # Iterable[Coalition]: a one-shot iterator is legitimate
+        cur_it = list(m.regret_matching_strategy(c for c in path))
+        nodes.append({"rank": r, "meta": mid, "used": used_pids, "avg": avg, "avg_it": avg_it, "cur_it": cur_it, "cum_strategy": [m.cumulative_strategy[r][a] for a in range(m.number_of_coalitions)]})
     return {"viable_ids": viable, "before_reg": before_reg, "after_reg": after_reg, "played": played, "cur": cur, "nodes": nodes,
             "iteration": int(m.iteration)}
 
@@ -159,6 +161,8 @@ def claims(params, inp, out, lg):
         cl.append((f"average-strategy-is-a-distribution:node={r}", lg.And(lg.close(s, one, tol), [lg.ge(x, zero) for x in avg], len(avg) == 2 ** n)))
         cl.append((f"average-strategy-only-on-viable-unrevealed:node={r}",
                    lg.And([lg.eq(avg[S], zero) for S in range(2 ** n) if S not in viable or viable.index(S) in used])))
+        cl.append((f"iterator-argument-gives-the-same-node:node={r}", lg.And([lg.eq(a, b) for a, b in zip(node["avg_it"], avg)],
+                                                                             [lg.eq(a, b) for a, b in zip(node["cur_it"], out["cur"][r])])))
         if not params["plus"]:
             dot = zero
             for a in range(nc):
